@@ -66,6 +66,7 @@ def check_recv(ctx, oid="C17.1"):
     from .. import cells
     R = ctx.R
     fi = ctx.fn(P2P + "recv_msg")
+    o2, o3 = ("C17.2", "C17.3") if oid == "C17.1" else (oid, oid)  # run on behalf of another property: its own obligation id
     glob = T("global", ("bits.p2p.MAGIC_START_BYTES",), tm.ANY)
     R.check(oid, "TABLE", fi, "header length 24", ctx.evaluator().const("bits.p2p", "MSG_HEADER_LEN") == 24, "MSG_HEADER_LEN is not 24", nontrivial=False)
     n_scen = 0
@@ -99,7 +100,7 @@ def check_recv(ctx, oid="C17.1"):
             R.check(oid, "TYPESTATE", fi, "payload of %d bytes delivered in fragments %s: returns (magic, command without NUL padding, payload)" % (L, (frags[:4] + ["..."]) if len(frags) > 4 else frags or "whole",), ok,
                     "with the stream delivered in fragments %s recv_msg gives %s %s" % (frags[:6], kind, tm.show(val)[:200]), example="a %d-byte payload arriving in fragments of %s bytes" % (L, frags[:4] or "any size"))
             over = st.pos != total or any(p + n > total for p, n in st.requests)
-            R.check("C17.2", "TERM-EQ", fi, "payload of %d bytes, fragments %s: exactly the %d bytes of this message are requested and consumed" % (L, (frags[:4] + ["..."]) if len(frags) > 4 else frags or "whole", total), not over,
+            R.check(o2, "TERM-EQ", fi, "payload of %d bytes, fragments %s: exactly the %d bytes of this message are requested and consumed" % (L, (frags[:4] + ["..."]) if len(frags) > 4 else frags or "whole", total), not over,
                     "recv_msg consumed %d bytes of the stream (requests %s) for a message of %d bytes: bytes of the next message are taken" % (st.pos, st.requests[:6], total),
                     example="a fragmented header followed immediately by the next message")
         for cut in sorted({0, 1, 10, 23, 24, total - 1}):
@@ -114,7 +115,7 @@ def check_recv(ctx, oid="C17.1"):
             for frags in ([], [5] * 40):
                 kind, val, want, st = play(L, frags, magic_ok=magic_ok, chk_ok=chk_ok)
                 n_scen += 1
-                R.check("C17.3", "DOM", fi, "payload of %d bytes, %s: refused" % (L, " and ".join(x for x, bad in (("foreign network magic", not magic_ok), ("checksum mismatch", not chk_ok)) if bad)), kind == "raise",
+                R.check(o3, "DOM", fi, "payload of %d bytes, %s: refused" % (L, " and ".join(x for x, bad in (("foreign network magic", not magic_ok), ("checksum mismatch", not chk_ok)) if bad)), kind == "raise",
                         "a message with %s is %s" % (" and ".join(x for x, bad in (("a foreign magic", not magic_ok), ("a wrong checksum", not chk_ok)) if bad), "accepted" if kind == "return" else "not decided"),
                         example="a message with an empty payload and a corrupted checksum field" if L == 0 else "a message of another network")
     R.floor(oid, n_scen, 60, "recv_scenarios")
